@@ -1598,12 +1598,26 @@ class DistPoisson(DistDiscrete):
         the given rate. Adapted from Fortran program in Shannon, Systems 
         Simulation, 1975, p. 359.
         """
+        # exp(-rate) underflows to zero for a rate above 745, and the count
+        # would then be decided by the underflow of the product. The sum of 
+        # independent Poisson variates is Poisson: draw in parts of 700
+        x = 0
+        rate = self._rate
+        while rate > 700.0:
+            x += self._draw_part(math.exp(-700.0))
+            rate -= 700.0
+        if rate == self._rate:
+            return self._draw_part(self._expl)
+        return x + self._draw_part(math.exp(-rate))
+
+    def _draw_part(self, expl: float) -> int:
+        """The number of uniform factors before the product drops to expl."""
         s = 1.0
         x = -1
         while True:
             s *= self._stream.next_float()
             x += 1
-            if s <= self._expl:
+            if s <= expl:
                 break
         return x
 
